@@ -55,14 +55,20 @@ class Parser:
         self.messages = Messages()
 
     def parse(self) -> "List[AbstractOperation]":
+        canonical = None
         if self.lexer.path:
-            self.visited.add(get_canonical_path(self.lexer.path))
+            canonical = get_canonical_path(self.lexer.path)
+            self.visited.add(canonical)
 
         try:
             ops = self.match_program()
         except HERAError as e:
             self.messages.err(*e.args)
             return []
+        finally:
+            # Only the files on the current chain of includes can form a cycle; a file
+            # that has been completely processed may be included again elsewhere.
+            self.visited.discard(canonical)
 
         # Make sure to capture any warnings from the lexer.
         self.messages.extend(self.lexer.messages)
